@@ -444,7 +444,10 @@ func Check[C any](t *testing.T, id string, gen func(*rapid.T) C, run func(*Ctx, 
 		fresh := record(id, unit, cj, x, known)
 		if len(fresh) > 0 {
 			writeViolation(id, unit, cj, fresh)
-			rt.Fatalf("VIOLATION %s: %s: %s", id, fresh[0].Sig, fresh[0].Msg)
+			// the failure message must be stable across runs (no addresses, goroutine ids, random values): rapid only
+			// accepts a shrunk case when it fails with the same message
+			rt.Logf("%s", fresh[0].Msg)
+			rt.Fatalf("VIOLATION %s: %s", id, fresh[0].Sig)
 		}
 	})
 }
